@@ -236,11 +236,39 @@ func c04E2E(res *lib.Result, tier string, root *lib.Rng) error {
 				check("outline selectionRange of "+y.raw, y.sel)
 			}
 		}
+		// the text a one-line range selects
+		textAt := func(rg lib.Range) (string, bool) {
+			if rg.Start.Line != rg.End.Line || rg.Start.Line < 0 || rg.Start.Line >= len(lines) {
+				return "", false
+			}
+			l := lines[rg.Start.Line]
+			if rg.Start.Character < 0 || rg.End.Character > len(l) || rg.Start.Character > rg.End.Character {
+				return "", false
+			}
+			return l[rg.Start.Character:rg.End.Character], true
+		}
 		for _, p := range identTokens("main.lua", src) {
+			// a member that has no declaration of its own falls back to the variable it is reached through:
+			// the names of the access chain to the left of the identifier are acceptable targets too
+			okText := map[string]bool{p.name: true, "\"" + p.name + "\"": true, "'" + p.name + "'": true} // t.k is also written t["k"]
+			{
+				l := lines[p.line]
+				i := p.col
+				for i > 0 && (l[i-1] == '.' || l[i-1] == ':' || l[i-1] == '_' || (l[i-1] >= 'a' && l[i-1] <= 'z') || (l[i-1] >= 'A' && l[i-1] <= 'Z') || (l[i-1] >= '0' && l[i-1] <= '9')) {
+					i--
+				}
+				for _, part := range strings.FieldsFunc(l[i:p.col], func(c rune) bool { return c == '.' || c == ':' }) {
+					okText[part] = true
+				}
+			}
 			if locs, err := sess.Definition("main.lua", p.line, p.col); err == nil {
 				for _, l := range locs {
 					if sess.Rel(l.URI) == "main.lua" {
 						check(fmt.Sprintf("definition of %s at %d:%d", p.name, p.line, p.col), l.Range)
+						// the declaration of an identifier is an occurrence of that identifier
+						if t, ok := textAt(l.Range); ok && p.name != "self" && !okText["self"] && !okText[t] {
+							res.AddViolation("impl-vs-spec", fmt.Sprintf("definition of %s at %d:%d: the range %s selects %q, not the identifier", p.name, p.line, p.col, locOfRange(l.Range), t), src, false)
+						}
 					}
 				}
 			}
@@ -248,6 +276,9 @@ func c04E2E(res *lib.Result, tier string, root *lib.Rng) error {
 				for _, l := range locs {
 					if sess.Rel(l.URI) == "main.lua" {
 						check(fmt.Sprintf("reference of %s at %d:%d", p.name, p.line, p.col), l.Range)
+						if t, ok := textAt(l.Range); ok && p.name != "self" && !okText["self"] && !okText[t] && t != "self" {
+							res.AddViolation("impl-vs-spec", fmt.Sprintf("reference of %s at %d:%d: the range %s selects %q, not the identifier", p.name, p.line, p.col, locOfRange(l.Range), t), src, false)
+						}
 					}
 				}
 			}
